@@ -51,6 +51,17 @@ Theorem remove_guard :
 Proof. exact PTFileSpec.remove_guard. Qed.
 Print Assumptions remove_guard.
 
+(* the PT-TEMPO entry points (pt_tempo_compute, PtTempo with a named process_tensor_file): an existing file is
+   replaced iff overwriting was requested, whatever the other options (degeneracy checking) are, and remove() is
+   granted under exactly the same condition *)
+Theorem api_no_clobber :
+  forall unique overwrite : bool,
+    (open_mode (api_mode unique overwrite) true = Replaced <-> overwrite = true) /\
+    (overwrite = false -> open_mode (api_mode unique overwrite) true = Refused) /\
+    removeable (api_mode unique overwrite) true = overwrite.
+Proof. intros [|] [|]; cbn; repeat split; intros; try reflexivity; try discriminate. Qed.
+Print Assumptions api_no_clobber.
+
 Example crash_premise_met :
   Forall (not_close nat) [WInit nat None; WMpo nat 0 ([1;1;1], [Some 1]); WCap nat 0 ([1], [Some 1])].
 Proof. repeat constructor. Qed.
